@@ -813,7 +813,16 @@ func sanitize(s string) string {
 }
 
 func nativeConfirms(o *Obligation, v interp.Violation, out string, code int) bool {
-	if strings.Contains(out, "NATIVE BUILD FAILED") || strings.Contains(out, "ZZVERIF ERROR") || strings.Contains(out, "ZZVERIF ASSUMEFAIL") {
+	if strings.Contains(out, "NATIVE BUILD FAILED") || strings.Contains(out, "ZZVERIF ERROR") {
+		return false
+	}
+	if v.Kind == "assert" {
+		// the failing assertion is printed when it happens; an Assume that fails LATER in the
+		// harness (on inputs the model did not have to fix) does not undo it
+		lbl := strings.TrimPrefix(v.Label, "assert: ")
+		return strings.Contains(out, "ZZVERIF FAIL "+lbl+"\n")
+	}
+	if strings.Contains(out, "ZZVERIF ASSUMEFAIL") {
 		return false
 	}
 	switch v.Kind {
